@@ -292,6 +292,7 @@ pub struct SimStream {
     peer: SocketAddr,
     rng: Rng64,
     knobs: NetKnobs,
+    eof_reads: u32,
 }
 
 fn inject_yield(rng: &mut Rng64, pm: u32, cx: &mut Context<'_>) -> bool {
@@ -343,6 +344,12 @@ impl AsyncRead for SimStream {
         }
         if p.wclosed == Some(CloseKind::Fin) {
             drop(p);
+            this.eof_reads += 1;
+            // a reader that keeps reading after the end of the stream spins forever inside one
+            // poll; nothing in a single-threaded simulation could interrupt it, so make it visible
+            if this.eof_reads > 1000 {
+                panic!("busy loop: more than 1000 reads after the end of the stream on connection {}", this.conn);
+            }
             log(Ev::ClientRead { conn: this.conn, n: 0, eof: true, err: false });
             return Poll::Ready(Ok(()));
         }
@@ -639,7 +646,7 @@ pub async fn connect(addr: &str) -> io::Result<SimStream> {
                 }
                 w.net.conn_addr.insert(conn, addr.to_string());
                 let rng = Rng64::sub(knobs.seed, &format!("conn-out-{}", addr));
-                Some(SimStream { conn, rx: a, tx: b, peer: sock, rng, knobs })
+                Some(SimStream { conn, rx: a, tx: b, peer: sock, rng, knobs, eof_reads: 0 })
             });
             match r {
                 Some(s) => {
@@ -671,7 +678,7 @@ pub fn dial_in(from: &str) -> Option<PeerEnd> {
         let a = Arc::new(Mutex::new(Pipe::new(usize::MAX)));
         let b = Arc::new(Mutex::new(Pipe::new(cap)));
         let rng = Rng64::sub(knobs.seed, &format!("conn-in-{}", from));
-        let s = SimStream { conn, rx: a.clone(), tx: b.clone(), peer: sock, rng, knobs };
+        let s = SimStream { conn, rx: a.clone(), tx: b.clone(), peer: sock, rng, knobs, eof_reads: 0 };
         if l.send(s).is_err() {
             return None;
         }
@@ -692,7 +699,7 @@ pub fn pair(addr: &str, knobs: NetKnobs) -> (SimStream, PeerEnd) {
         let rng = Rng64::sub(knobs.seed, "pair");
         w.net.conn_addr.insert(conn, addr.to_string());
         (
-            SimStream { conn, rx: a.clone(), tx: b.clone(), peer: parse_addr(addr).unwrap(), rng, knobs },
+            SimStream { conn, rx: a.clone(), tx: b.clone(), peer: parse_addr(addr).unwrap(), rng, knobs, eof_reads: 0 },
             PeerEnd { conn, addr: addr.to_string(), to_client: a, from_client: b, closed: false },
         )
     })
